@@ -242,7 +242,9 @@ func (e *Enc) callContract(fr *Frame, st *State, c *ssa.Call, callee *ssa.Functi
 		post.errs = nil
 		f, err := post.formula(r.Text)
 		if err != nil {
-			e.bindErr(ct, r, err)
+			if !strings.Contains(err.Error(), "unknown identifier") {
+				e.bindErr(ct, r, err) // (clauses about the callee's locals or ghosts say nothing to a caller)
+			}
 			continue
 		}
 		e.assumeG(f)
@@ -444,6 +446,7 @@ func (e *Enc) modifiesAllows(fr *Frame, ref string) string {
 func (e *Enc) mutatorCall(fr *Frame, st *State, c *ssa.Call, callee *ssa.Function, args []string) *State {
 	cc := c.Common()
 	pre := st
+	e.comparatorIndexesSortedSlice(fr, st, c, callee)
 	st = e.havocCall(fr, st, c, false)
 	for i, a := range cc.Args {
 		switch u := a.Type().Underlying().(type) {
@@ -1066,55 +1069,65 @@ func (e *Enc) debugVars(fr *Frame, at *ssa.BasicBlock, st *State, vars map[strin
 			}
 		}
 	}
-	for n, c := range cells {
-		found[n] = true
-		if _, ok := vars[n]; !ok {
-			vars[n] = tval{typ: c.typ, cell: c.a}
-		}
+	// value variables: walking up the dominator tree, the nearest DebugRef (definition or use: both carry
+	// the variable's current value) or loop phi named like the variable
+	type valCand struct {
+		v   tval
+		pos token.Pos // declaration position of the variable object
 	}
+	vals := map[string]valCand{}
 	for b := at; b != nil; b = b.Idom() {
-		local := map[string]tval{}
+		local := map[string]valCand{}
 		for _, in := range b.Instrs {
 			switch d := in.(type) {
 			case *ssa.Phi:
 				if d.Comment != "" {
 					if t, ok := fr.vals[d]; ok {
-						local[d.Comment] = tval{t: t, typ: d.Type()}
+						local[d.Comment] = valCand{tval{t: t, typ: d.Type()}, d.Pos()}
 					}
 				}
 			case *ssa.DebugRef:
-				if d.Object() == nil {
+				if d.Object() == nil || d.IsAddr {
 					continue
 				}
 				if _, isVar := d.Object().(*types.Var); !isVar {
 					continue
 				}
 				n := d.Object().Name()
-				if d.IsAddr {
-					if al, ok := d.X.(*ssa.Alloc); ok {
-						if ref, ok := fr.vals[al]; ok {
-							el := al.Type().Underlying().(*types.Pointer).Elem()
-							a := e.addrOfRef(ref, el)
-							local[n] = tval{typ: el, cell: a}
-						}
-					}
-					continue
-				}
 				if t, ok := fr.vals[d.X]; ok {
-					local[n] = tval{t: t, typ: d.X.Type()}
+					local[n] = valCand{tval{t: t, typ: d.X.Type()}, d.Object().Pos()}
 				} else if c, ok := d.X.(*ssa.Const); ok {
-					local[n] = tval{t: e.constVal(c), typ: c.Type()}
+					local[n] = valCand{tval{t: e.constVal(c), typ: c.Type()}, d.Object().Pos()}
 				}
 			}
 		}
 		for n, v := range local {
-			if found[n] {
-				continue
+			if !found[n] {
+				found[n] = true
+				vals[n] = v
 			}
-			found[n] = true
-			if _, ok := vars[n]; !ok {
-				vars[n] = v
-			}
+		}
+	}
+	// shadowing: between a memory-resident variable and a value variable of the same name, the one
+	// declared later in the source is the one in scope at a point both reach
+	names := map[string]bool{}
+	for n := range cells {
+		names[n] = true
+	}
+	for n := range vals {
+		names[n] = true
+	}
+	for n := range names {
+		if _, ok := vars[n]; ok {
+			continue
+		}
+		c, hasC := cells[n]
+		v, hasV := vals[n]
+		switch {
+		case hasC && (!hasV || c.pos >= v.pos):
+			vars[n] = tval{typ: c.typ, cell: c.a}
+		case hasV:
+			vars[n] = v.v
 		}
 	}
 }
@@ -1466,14 +1479,25 @@ func (e *Enc) siteGhosts(fr *Frame, b *ssa.BasicBlock, st *State) {
 				continue
 			}
 			env := e.siteEnv(fr, b, st)
-			f, err := env.formula(sc.Clause.Text)
+			v, err := env.term(sc.Clause.Text)
 			if err != nil {
 				e.bindErr(ct, sc.Clause, err)
 				continue
 			}
-			g := e.freshConst("ghost_"+san(sc.Name), "Bool")
-			e.define(g, "(and "+e.cur+" "+f+")")
+			srt := e.d.sortOf(v.typ)
+			if srt == "Bool" {
+				// a Boolean ghost is false unless its program point is reached
+				g := e.freshConst("ghost_"+san(sc.Name), "Bool")
+				e.define(g, "(and "+e.cur+" "+v.t+")")
+				e.ghost[sc.Name] = g
+				e.ghostType[sc.Name] = types.Typ[types.Bool]
+				continue
+			}
+			// a value ghost records the value at its program point
+			g := e.freshConst("ghost_"+san(sc.Name), srt)
+			e.define(g, v.t)
 			e.ghost[sc.Name] = g
+			e.ghostType[sc.Name] = v.typ
 		}
 	}
 }
@@ -1510,4 +1534,45 @@ func (e *Enc) sortViaSwapContract(fr *Frame, st *State, c *ssa.Call, mi *ssa.Mak
 		}
 	}
 	return true, st
+}
+
+// comparatorIndexesSortedSlice: for sort.Slice / sort.SliceStable(x, less) with a closure literal, the closure
+// body is executed symbolically at the call site for arbitrary indices; every slice it indexes with one of
+// its index parameters must be x itself (a comparator reading another slice than the one being permuted
+// sorts by stale positions).
+func (e *Enc) comparatorIndexesSortedSlice(fr *Frame, st *State, c *ssa.Call, callee *ssa.Function) {
+	name := shortName(callee)
+	if fr.inl || (name != "sort.Slice" && name != "sort.SliceStable") {
+		return
+	}
+	cc := c.Common()
+	mc, ok := cc.Args[1].(*ssa.MakeClosure)
+	if !ok {
+		return
+	}
+	xv := unwrapIface(cc.Args[0])
+	if _, isSlice := xv.Type().Underlying().(*types.Slice); !isSlice {
+		return
+	}
+	x := e.val(fr, xv)
+	fn := mc.Fn.(*ssa.Function)
+	if len(fn.Params) != 2 {
+		return
+	}
+	i, j := e.freshConst("cmp_i", "Int"), e.freshConst("cmp_j", "Int")
+	e.assume(fmt.Sprintf("(and (<= 0 %s) (< %s (slen %s)) (<= 0 %s) (< %s (slen %s)))", i, i, x, j, j, x))
+	var bases []string
+	saveCur := e.cur
+	e.inlineFnB(fr, st, fn, []string{i, j}, nil, mc, false, func(nf *Frame) { nf.idxBases = &bases })
+	e.cur = saveCur
+	seen := map[string]bool{}
+	for _, b := range bases {
+		if seen[b] {
+			continue
+		}
+		seen[b] = true
+		cond := fmt.Sprintf("(and (= (sarr %s) (sarr %s)) (= (soff %s) (soff %s)))", b, x, b, x)
+		o := e.addOb(fr, "NONDET", "cmp-reads-sorted-slice", c.Pos(), e.exprText(c.Pos(), "call"), cond, b == x)
+		o.tags = e.spec.siteTags[shortName(e.top)]
+	}
 }
